@@ -132,7 +132,7 @@ func (k c09) Run(c *rt.Ctx) {
 	if floats && !implicit && r.Chance(1, 5) {
 		// float group values that agree in their first six decimals (or are the two zeros): equal
 		// values share a group, unequal ones do not, however they are rendered
-		close := []string{"0.1", "0.1000001", "0.10000001", "2.5", "0", "0.0", "0.0000001", "0.00000012", "2.5000001", "7.25"}
+		close := []string{"0.1", "0.1000001", "0.10000001", "2.5", "0", "-0", "0.0", "-0.0", "0.0000001", "0.00000012", "2.5000001", "7.25"}
 		for i := range pairs {
 			pairs[i].V = close[r.Intn(len(close))]
 		}
@@ -243,6 +243,7 @@ func (k c09) Run(c *rt.Ctx) {
 		bigints = true
 		c.Rec.Inc("bigint_values")
 	}
+	noArith := false
 	if !floats && !implicit && !bigints && r.Chance(1, 12) {
 		// integers around 2^53 whose sums still fit: sum is exact and avg is the exact sum divided
 		// once, not a running float (2^53+1 three times: the float sum has lost 3 by then)
@@ -254,6 +255,7 @@ func (k c09) Run(c *rt.Ctx) {
 		}
 		numArg = func() *gen.Node { return gen.Call("int", gen.Value()) }
 		c.Rec.Inc("mid_integer_values")
+		noArith = true // beyond 2^53 a re-associated float addition rounds differently (C04 restricts itself to exact values too)
 	}
 	var aggs []c09Agg
 	na := r.Range(1, 4)
@@ -281,6 +283,18 @@ func (k c09) Run(c *rt.Ctx) {
 			}
 		default:
 			aggs = append(aggs, c09Agg{name: "group_concat", arg: numArg(), sep: ","})
+		}
+	}
+	if closeFloats {
+		// how a negative zero is written inside a concatenation is not documented: the collecting
+		// aggregates get text arguments here
+		for i := range aggs {
+			if aggs[i].name == "group_concat" || aggs[i].name == "json_arrayagg" {
+				aggs[i].arg = textArg()
+				if aggs[i].sep == "" && aggs[i].name == "group_concat" {
+					aggs[i].sep = ","
+				}
+			}
 		}
 	}
 	if bigints {
@@ -320,9 +334,25 @@ func (k c09) Run(c *rt.Ctx) {
 		tree := mk(a)
 		used := []int{i}
 		numeric := a.name != "group_concat" && a.name != "json_arrayagg"
-		if numeric && r.Chance(1, 3) {
+		if numeric && !noArith && !bigints && !closeFloats && r.Chance(1, 3) {
 			arith = true
-			switch r.Intn(3) {
+			shape := r.Intn(8)
+			if a.name == "avg" {
+				// a quotient is not exactly representable: a chain the rewrite may legally regroup
+				// (x + 1 + 2 -> x + 3) rounds differently, C04 keeps to exact values for that reason
+				shape = r.Intn(3)
+			}
+			switch shape {
+			case 3: // constant sub-expressions next to the aggregate, joined by other operators than their own
+				tree = gen.Bin("+", gen.Bin("*", tree, gen.Bin("+", gen.Int(1), gen.Int(1))), gen.Int(1))
+			case 4:
+				tree = gen.Bin("+", gen.Bin("-", tree, gen.Bin("+", gen.Int(1), gen.Int(2))), gen.Int(3))
+			case 5:
+				tree = gen.Bin("*", gen.Bin("+", tree, gen.Bin("*", gen.Int(2), gen.Int(3))), gen.Int(4))
+			case 6:
+				tree = gen.Bin("+", gen.Bin("+", tree, gen.Int(1)), gen.Int(2))
+			case 7:
+				tree = gen.Bin("+", gen.Bin("+", tree, gen.Bin("+", gen.Int(1), gen.Int(2))), gen.Int(3))
 			case 0:
 				tree = gen.Bin("*", tree, gen.Int(10))
 			case 1:
@@ -507,7 +537,7 @@ func (k c09) Run(c *rt.Ctx) {
 		for ci, cl := range cols {
 			if cl.isGroup {
 				want := "T" + strconv.Quote(c09Render(g.key[cl.gi]))
-				if row[ci] != want {
+				if row[ci] != want && !c09SameFloatText(row[ci], want) {
 					c.Violation("group-column", cluster("selected GROUP BY expression does not show the group's value (or groups are out of first-appearance order)"), detail(rt.D{"group_index": gi, "column": ci, "expected": want, "observed": row[ci]}))
 					return
 				}
@@ -537,6 +567,19 @@ func (k c09) Run(c *rt.Ctx) {
 	if c.Case%300 == 0 {
 		rec.Sample(rt.D{"aggregate": q, "plain": pq, "groups": len(order), "pairs": len(pairs), "mode": mode.String()})
 	}
+}
+
+// c09SameFloatText: two shown float group values that are the same number (-0.000000 and
+// 0.000000: the group of the two zeros shows whichever came first)
+func c09SameFloatText(a, b string) bool {
+	ua, err1 := strconv.Unquote(strings.TrimPrefix(a, "T"))
+	ub, err2 := strconv.Unquote(strings.TrimPrefix(b, "T"))
+	if err1 != nil || err2 != nil || !strings.Contains(ua, ".") || !strings.Contains(ub, ".") {
+		return false
+	}
+	fa, e1 := strconv.ParseFloat(ua, 64)
+	fb, e2 := strconv.ParseFloat(ub, 64)
+	return e1 == nil && e2 == nil && fa == fb && fa == 0
 }
 
 func moreFewer(a, b int) string {
